@@ -136,7 +136,7 @@ class C03(Check):
         sub = pick(2, banned=nonreo & set(outer)) if has_sub else None
         route = pick(3, banned=nonreo & (set(outer) | set(sub or [])))
         return {'types': types, 'outer': outer, 'sub': sub, 'route': route,
-                'ep_returns': rng.choice(['dict', 'dict', 'resp']), 'has_render': rng.random() < 0.8}
+                'ep_returns': rng.choice(['dict', 'dict', 'resp', 'baseresp']), 'has_render': rng.random() < 0.8}
 
     def generate(self, seed, tier):
         S = Streams(seed)
@@ -148,7 +148,7 @@ class C03(Check):
         excs = sorted(EXC_TYPES)
         for name in layers:
             for beh in LAYER_BEHS:
-                ops.append({'faults': {name: {'beh': beh, 'exc': frng.choice(excs)}}})
+                ops.append({'faults': {name: {'beh': beh, 'exc': frng.choice(excs), 'value': frng.choice(['resp', 'resp', 'baseresp'])}}})
         ops.append({'faults': {'EP': {'beh': 'raise', 'exc': frng.choice(excs)}}})
         if cfg['has_render']:
             ops.append({'faults': {'RN': {'beh': 'raise', 'exc': frng.choice(excs)}}})
